@@ -204,6 +204,23 @@ def check_registrations(_):
     c = hotxlfp.Parser()
     if outcome(c, 'onlya') != (('N',), '#NAME?') or outcome(c, 'TRUE') != (('B', 1), None):
         out.append(('a parser created after registrations on another one sees them', None, 'fresh bindings', repr((outcome(c, 'onlya'), outcome(c, 'TRUE')))))
+    # one callback object subscribed on several parsers (on / once), fired or unsubscribed on one of them: the
+    # subscriptions on the others are untouched
+    def fill(cell, done):
+        done(41)
+    for api in ('on', 'once'):
+        solo = hotxlfp.Parser()
+        getattr(solo, api)('callCellValue', fill)
+        want = outcome(solo, 'A1+1')
+        x, y, z = hotxlfp.Parser(), hotxlfp.Parser(), hotxlfp.Parser()
+        for q in (x, y, z):
+            getattr(q, api)('callCellValue', fill)
+        z.off('callCellValue', fill)
+        got = [outcome(x, 'A1+1'), outcome(y, 'A1+1')]
+        if got != [want, want]:
+            out.append(('%s(callCellValue, f) on three parsers, off() on the third, then A1+1 on the first two' % api, None, repr([want, want]), repr(got)))
+        if outcome(z, 'A1+1') != outcome(hotxlfp.Parser(), 'A1+1'):
+            out.append(('%s() then off() on one parser' % api, None, repr(outcome(hotxlfp.Parser(), 'A1+1')), repr(outcome(z, 'A1+1'))))
     if b.variables is a.variables or b.functions is a.functions or b._e is a._e:
         out.append(('binding tables shared between parsers', None, 'distinct objects', 'shared'))
     return out
